@@ -5,7 +5,7 @@ E2 = "llvm-ir-z3"
 
 ENGINES = [
     {"name": E1, "path": "vlib/e1.py, vlib/xh_worker.py, harness/*.py",
-     "serves_properties": ["C03", "C04", "C05", "C10", "C11", "C12", "C13",
+     "serves_properties": ["C02", "C03", "C04", "C05", "C10", "C11", "C12", "C13",
                            "C16", "C17", "C18", "C19"],
      "kind_free_text": "CrossHair 0.0.110: per-path symbolic execution of the real "
                        "pytype functions (imported from /repo at run time) with z3 "
@@ -34,6 +34,11 @@ def _c(pid, engine, technique, level_text, level_note, design_ref):
 
 
 CHECKS = [
+    _c("C02", E1,
+       "symbolic execution (CrossHair+z3) of matcher.py and the three enforcement entry points (InterpreterFunction.match_args, CallTracer._check_return, Context.check_annotation_type_mismatch) on (annotation, value) pairs selected by symbolic selectors, against an independent membership oracle on the CPython run-time value",
+       "Bounded solver-certified exhaustive check at the matcher level: for every annotation of a depth-bounded grammar (scalars incl. a generated class hierarchy, List/Set/Sequence/Iterable/Tuple forms/Dict/Mapping/Optional/Union/Type/Callable, selected depth-3 forms) and every ground value expression of a 49-expression grammar, each of the three enforcement sites reports an error iff the run-time value is outside the annotated type. Annotation and value objects are those the real VM builds in one native set-up run; the matching and site code run traced. Two recorded findings (None accepted as bool; mixed-element container literals accepted at the argument site) are printed as KNOWN-FINDING and excluded.",
+       "Trusted: the membership oracle, CPython eval, CrossHair, z3. Cuts (real code run untraced): get_type_key, error formatting, the one set-up VM run; CrossHair's weakref model and matcher.py's `set` name replaced (DESIGN.md 4 C02). Outside: how the VM builds values for arbitrary programs, multi-binding values, generics/Protocol/TypedDict/Literal, str as Iterable[str], error line and text.",
+       "DESIGN.md 4 C02"),
     _c("C09", E2,
        "bounded symbolic execution of the LLVM IR of reachable.cc / typegraph.cc over z3 bit-vectors; contracts as unsat queries plus bounded Program-level histories with symbolic endpoints",
        "Bounded solver-based check of the compiled C++: the row-OR update contract of add_connection, is_reachable and add_node (both vector layouts) hold for ARBITRARY 64-bit matrix contents at the listed node counts (one, two and three 64-bit buckets and both sides of each boundary); histories of k ConnectTo calls with symbolic endpoints on n nodes agree with graph reachability after every step. sat models are replayed on the compiled extension before being reported.",
@@ -98,7 +103,6 @@ CHECKS = [
 
 NOT_APPLICABLE = {
     "C01": "soundness of inference quantifies over programs run through the whole abstract VM on the C++ typegraph; programs must pass CPython's compile (C) so they cannot be symbolic and the VM cannot be traced by CrossHair (one path: 55 CPU-s then RecursionError); no sub-function carries the property alone",
-    "C02": "the matcher only operates on abstract values bound to a live VM Context (loader, builtins stub, typegraph); its inputs are VM-created object graphs, not encodable values",
     "C06": "hand-off spans VM -> output -> printer -> parser -> loader -> convert -> VM; both ends are the abstract VM (the printer/parser middle is decided under C05, the pickle middle under C12)",
     "C07": "solver.cc is a memoised backtracking search over std::set/unordered_map/deque and a unique_ptr trie; pointer-rich heap containers whose primitives live in libstdc++.so outside the emitted IR; no KLEE/CBMC-class engine is installed and the IR interpreter built for C09 handles flat arrays only",
     "C08": "same code as C07 plus the Python binding; cache invalidation cannot be decided without encoding the solver itself",
